@@ -125,6 +125,37 @@ def float_history(spec):
     return {"trace": ev, "spec": spec}
 
 
+def edge_history(delta):
+    """One accepted pair, then a candidate whose curvature ratio s.y / y.y is `delta` EXACTLY (the stored point is
+    x = 0 with g = 0, so s and y are the candidate's own coordinates: s = e1, y = delta*e1 + e2 gives s.y = delta,
+    y.y = 1 in floats): the curvature test s.y > eps*y.y decides on the knife edge around eps = 2.2e-16."""
+    from lbfgsb.bfgsmats import LBFGSB_MATRICES, update_lbfgs_matrices
+
+    n, maxcor = 3, 3
+    X, G = deque([np.array([-1.0, -2.0, 0.5])]), deque([np.array([-2.0, -6.0, 2.0])])
+    mats = LBFGSB_MATRICES(n)
+    ev = [{"e": "Begin", "first": 1, "maxcor": maxcor}]
+    mats = update_lbfgs_matrices(np.zeros(n), np.zeros(n), X, G, maxcor, mats, False)
+    ok = len(X) == 2
+    ev.append({"e": "MemUpd", "cand": 2, "before": [1], "ids": [1, 2] if ok else [1], "curv": True, "allCurv": True,
+               "matsSame": not ok, "compact": True, "spd": True, "secant": True, "theta": True})
+    s, y = np.array([1.0, 0.0, 0.0]), np.array([delta, 1.0, 0.0])
+    curv = bool(float(s.dot(y)) > 2.2e-16 * float(y.dot(y)))
+    th0, W0 = mats.theta, mats.W
+    before = [1, 2] if ok else [1]
+    try:
+        mats = update_lbfgs_matrices(s.copy(), y.copy(), X, G, maxcor, mats, False)
+        acc = len(X) == len(before) + 1
+        ev.append({"e": "MemUpd", "cand": 3, "before": before, "ids": before + [3] if acc else before, "curv": curv,
+                   "allCurv": bool(curv or not acc), "matsSame": bool(mats.theta == th0 and mats.W is W0),
+                   # (theta = 1/delta ~ 1e15: the dense reconstruction facts are not judged on this pair)
+                   "compact": True, "spd": True, "secant": True, "theta": True})
+    except Exception:  # noqa: BLE001 - e.g. a factorisation failing on an accepted edge pair
+        ev.append({"e": "MemUpd", "cand": 3, "before": before, "ids": before + [3] if curv else before, "curv": curv, "allCurv": True,
+                   "matsSame": not curv, "compact": True, "spd": True, "secant": True, "theta": True})
+    return {"trace": ev, "spec": {"edge_delta": delta}}
+
+
 def run(ctx):
     total = 0
     shapes = 0
@@ -144,6 +175,8 @@ def run(ctx):
             s["family"] = "qp"      # linear gradient: y = A s keeps its relative accuracy on the tiny scale
     with mp.get_context("fork").Pool(NCPU) as pool:
         res = pool.map(float_history, specs, chunksize=8)
+    # knife edge of the curvature test
+    res += [edge_history(m * 2.2e-16) for m in (1e-3, 0.1, 0.5, 0.9, 0.99, 1.01, 1.1, 2.0, 10.0, 1e3)]
     viols = validate(ctx, [r["trace"] for r in res], module="MemoryTrace", name="memory-float")
     for r, v in zip(res, viols):
         for cl in sorted(v):
